@@ -129,6 +129,10 @@ def gen(rng, tier):
             kind = kinds[(k + j * 2) % 5] if j > 0 or not with_abf else "abf"
             m = rng.randint(1, min(2, ncv))
             cvs = ["x%d" % i for i in sorted(rng.shuffle(list(range(ncv)))[:m])]
+            if with_abf and j == 1 and k % 10 == 3:
+                # walls inside the ABF grid on the ABF variable: their force reaches the atoms through the bypassing path (fb_actual) and is
+                # part of the applied force that subtractAppliedForce removes from the total force ABF reads
+                kind = "walls"; cvs = ["x0"]
             tsf = rng.choice([1, 1, 2, 3, 4]) if not with_abf else 1
             name = "b%d" % j
             if kind == "abf":
@@ -144,11 +148,20 @@ def gen(rng, tier):
         nsteps = 3 * maxn + 2 + rng.randint(0, 4)
         traj = []
         cur = [rng.uniform(-2, 2) for _ in range(ncv)]
+        abf_walls = with_abf and any(b["kind"] == "walls" for b in biases)
+        if abf_walls:
+            # stay inside the ABF grid and beyond a wall for a while: ABF must collect enough samples there to apply a force of its own
+            nsteps += 14
+            cur[0] = [b for b in biases if b["kind"] == "walls"][0]["par"][3][0] + 0.3
         for s_ in range(nsteps):
             for i in range(ncv):
+                if abf_walls and i == 0:
+                    cur[i] += rng.uniform(-0.12, 0.12); continue
                 cur[i] += rng.uniform(-0.8, 0.8)
             traj.append((list(cur), [rng.uniform(-4, 4) for _ in range(ncv)]))
         split = rng.randint(1, nb - 1)
+        if abf_walls:
+            split = 1          # ABF alone in one part, the walls in the other: the coupling through the subtracted applied force is what is compared
         # the first step of the run need not be 0 (nor a multiple of the time-step factors)
         it0 = 0 if (k % 3) != 1 else rng.randint(1, 9)
         groups = {"AB": biases, "A": biases[:split], "B": biases[split:]}
